@@ -15,7 +15,7 @@
 (*   bin_bb   all 16 binary ops, Bits(w,a) op Bits(w,b)                    *)
 (*   bin_bi   Bits(w,a) op i and i op Bits(w,a), i \in -(M+1)..(M+1)       *)
 (*   bin_bx   Bits(w,a) op Bits(w2,b), w2 # w, w2 <= P1                    *)
-(*   un       invert int uint pyint index bool nbits clone                 *)
+(*   un       invert int uint pyint index bool nbits clone deepcopy        *)
 (*   hash     hash(Bits(w,a)) == hash(Bits(w2,b)), w2 <= P1                *)
 (*   new      Bits(w, v, trunc): v int in -(M+2)..(M+2) or Bits(w2<=P1,b)  *)
 (*   assign, nbassign   same values, object Bits(w,a)                      *)
@@ -44,7 +44,7 @@ Val(c)   == IF c[1] = 1 THEN Bx(c[2], c[3]) ELSE Ix(c[3])  \* value code <<1, w,
 
 BinOpSeq == <<"add", "sub", "mul", "floordiv", "mod", "and", "or", "xor", "lshift", "rshift",
               "eq", "ne", "lt", "le", "gt", "ge">>
-UnOpSeq  == <<"invert", "int", "uint", "pyint", "index", "bool", "nbits", "clone">>
+UnOpSeq  == <<"invert", "int", "uint", "pyint", "index", "bool", "nbits", "clone", "deepcopy">>
 ExtSeq   == <<"zext", "sext", "trunc">>
 RedSeq   == <<"reduce_and", "reduce_or", "reduce_xor">>
 
@@ -66,7 +66,7 @@ Cases(w) ==
           [] Fam = "bin_bi"   -> {<<o, r, a, i>> : o \in 1..16, r \in 0..1, a \in A, i \in (-(2^w + 1))..(2^w + 1)}
           [] Fam = "bin_bx"   -> {c \in {<<o, a, w2, b>> : o \in 1..16, a \in A, w2 \in (1..P1) \ {w}, b \in 0..(2^P1 - 1)}
                                     : c[4] < 2^c[3]}
-          [] Fam = "un"       -> {<<o, a>> : o \in 1..8, a \in A}
+          [] Fam = "un"       -> {<<o, a>> : o \in 1..Len(UnOpSeq), a \in A}
           [] Fam = "hash"     -> {c \in {<<a, w2, b>> : a \in A, w2 \in 1..P1, b \in 0..(2^P1 - 1)} : c[3] < 2^c[2]}
           [] Fam = "new"      -> {<<t, c>> : t \in 0..1, c \in NewVals(w)}
           [] Fam \in {"assign", "nbassign"} -> {<<a, c>> : a \in A, c \in NewVals(w)}
